@@ -1,7 +1,10 @@
 //gosx:package langserver/check
 package check
 
-import "strings"
+import (
+	"strconv"
+	"strings"
+)
 
 // C13-d: the hover label says what the declaration says about the identifier: `local` exactly for local
 // declarations (also when a global or a table member is initialised from a local), the literal value, or
@@ -44,7 +47,14 @@ var c13labels = []c13lab{
 func VerifRun_C13d() {
 	ti := verifConcretize(verifRange("template", verifParam("TMIN"), verifParam("TMAX")))
 	tp := c13labels[ti]
-	digit := verifByteIn("digit", "1234")
+	digit := byte(verifConcretize(int(verifByteIn("digit", "1234"))))
+	// the literal the declaration gives: the digit alone, or a longer numeric literal around it (floats
+	// with more significant digits than a float32 holds, extreme exponents, hexadecimal), a string
+	lits := []string{"\x01", "\x01.5", "0.\x01", "3.14159265358979\x01", "1677721\x01.0", "\x01e300", "\x01.5e-300", "12345678\x01", "0x1\x01", "\"s\x01\"", "\x01e5"}
+	lit := lits[0]
+	if tp.value {
+		lit = lits[verifConcretize(verifRange("literal", 0, len(lits)-1))]
+	}
 	la := verifByteIn("pa", "xyz")
 	lb := verifByteIn("pb", "xyz")
 	sub := func(s string) []byte {
@@ -52,7 +62,13 @@ func VerifRun_C13d() {
 		for i := 0; i < len(s); i++ {
 			switch s[i] {
 			case 1:
-				out = append(out, digit)
+				for j := 0; j < len(lit); j++ {
+					if lit[j] == 1 {
+						out = append(out, digit)
+					} else {
+						out = append(out, lit[j])
+					}
+				}
 			case 2:
 				out = append(out, la)
 			case 3:
@@ -95,8 +111,27 @@ func VerifRun_C13d() {
 	if !saysLocal && tp.local {
 		verifViolation("", "the hover label does not present a local declaration as local")
 	}
-	if tp.value && !strings.Contains(label, "= "+string([]byte{digit})) {
-		verifViolation("", "the hover label does not show the literal value the declaration gives")
+	if tp.value {
+		written := strings.Replace(lit, "\x01", string([]byte{digit}), -1)
+		shown := ""
+		if k := strings.LastIndex(label, "= "); k >= 0 {
+			shown = strings.TrimSpace(label[k+2:])
+		}
+		verifObserve("shown", shown)
+		ok := shown == written
+		if !ok && written[0] != '"' {
+			// a number may be shown in another notation, but it must be the same number
+			if wi, err := strconv.ParseInt(written, 0, 64); err == nil {
+				si, err2 := strconv.ParseInt(shown, 0, 64)
+				ok = err2 == nil && si == wi
+			} else if wf, err := strconv.ParseFloat(written, 64); err == nil {
+				sf, err2 := strconv.ParseFloat(shown, 64)
+				ok = err2 == nil && sf == wf
+			}
+		}
+		if !ok {
+			verifViolation("", "the hover label does not show the literal value the declaration gives")
+		}
 	}
 	if tp.params != "" {
 		// the names, in the order written; each may be followed by ": <type>"
